@@ -360,7 +360,19 @@ func Gen(w *bufio.Writer, seed uint64, tier string, prop string) {
 		if ph {
 			phs = "1"
 		}
-		fmt.Fprintf(w, "PE digest %s %s\n", hx.Hex(f), phs)
+		// wf=<class>: the generator's own statement about the input. "ok": well-formed as relic understands PE layouts;
+		// "nd<k>": well-formed but with fewer than 16 data directories; "gapz": gap after the headers while the first
+		// section header has no raw data; "-": mutated / not claimed well-formed
+		wf := "-"
+		if variant < 6 {
+			wf = "ok"
+			if p.NumDirs < 16 {
+				wf = fmt.Sprintf("nd%d", p.NumDirs)
+			} else if p.Gap > 0 && len(p.Sections) > 0 && p.Sections[0] == 0 {
+				wf = "gapz"
+			}
+		}
+		fmt.Fprintf(w, "PE digest %s %s wf=%s\n", hx.Hex(f), phs, wf)
 		if variant < 6 || r.Intn(3) == 0 {
 			fmt.Fprintf(w, "PE sign %s %s\n", hx.Hex(f), hx.Hex(r.Bytes(r.Pick(1, 7, 8, 9, 64, 300))))
 		}
